@@ -410,6 +410,9 @@ func (w *World) assign(entity Entity, relation ID, hasRelation bool, target Enti
 func (w *World) exchange(entity Entity, add []ID, rem []ID, relation ID, hasRelation bool, target Entity) {
 	if w.listener != nil {
 		arch, oldMask, oldTarget, oldRel := w.exchangeNoNotify(entity, add, rem, relation, hasRelation, target)
+		if arch == nil {
+			return
+		}
 		w.notifyExchange(arch, oldMask, entity, add, rem, oldTarget, oldRel)
 		return
 	}
